@@ -97,5 +97,104 @@ pub fn seek_vectors(out: &mut dyn Write, tier: &str, seed: u64) -> J {
             }
         }
     }
+    n += big_vectors(out, quick, &mut rng);
     json!({"vectors": n})
+}
+
+/// Reads and writes at the far end of files of nearly 2^32 bytes (64 KiB clusters, chains of up to 65 536 clusters whose
+/// contents are never materialised): outcome, offset, length, what reads back and what the directory entry says afterwards.
+fn big_vectors(out: &mut dyn Write, quick: bool, rng: &mut Rng) -> u64 {
+    let mut n = 0u64;
+    const CL: u64 = 65536;
+    let mut sizes: Vec<u32> = vec![0xFFFF_FFFF, 0xFFFF_FFFE, 0xFFFF_FF00, 0xFFFF_0000, 0xFFFE_FFF0, 0x8000_0000, 0x7FFF_FFFF];
+    if !quick {
+        for _ in 0..6 {
+            sizes.push(0xFF00_0000 | (rng.next() as u32 & 0x00FF_FFFF));
+        }
+    }
+    for &size in &sizes {
+        let nclus = ((size as u64 + CL - 1) / CL) as u32;
+        let chain: Vec<u32> = (3..3 + nclus).collect();
+        let window: Vec<u32> = (2..3 + nclus + 8).collect();
+        let spec = json!({"vols": [{"fat32": true, "clusters": 65700, "bpc": 128, "nfats": 1, "lba": 8, "slot": 0, "ptype": 12, "window": window, "info_free": "unknown",
+            "root": [{"t": "file", "name": "BIG     BIN", "chain": chain, "units": 0, "bytes": size, "nodata": true, "attr": 32, "ct": 2, "mt": 3}]}]});
+        let mut vals = Vals::new(vec![0]);
+        let img = mkfs::build(&spec, &mut vals);
+        // (offset, number of bytes)
+        let mut cases: Vec<(u32, usize)> = Vec::new();
+        for &back in &[0u32, 1, 2, 15, 16, 255, 256, 511, 512, 513, 600, 65535, 65536, 70000] {
+            if back > size {
+                continue;
+            }
+            let off = size - back;
+            for &len in &[1usize, 2, 16, 255, 256, 257, 512, 513, 1024, 66000] {
+                // keep what is interesting: reaching, touching or passing the end of the file or the 2^32 - 1 limit
+                let end = off as u64 + len as u64;
+                if end + 600 >= size as u64 || end >= 0xFFFF_FFFF {
+                    cases.push((off, len));
+                }
+            }
+        }
+        if quick {
+            let keep: Vec<(u32, usize)> = cases.iter().cloned().enumerate().filter(|(i, _)| i % 3 == (size % 3) as usize).map(|(_, c)| c).collect();
+            cases = keep;
+        }
+        for &(off, len) in &cases {
+            for write in [false, true] {
+                let dev: SparseDev = img.dev.snapshot();
+                let vm: VolumeManager<SparseDev, Clk, 4, 4, 1> = VolumeManager::new_with_limits(dev, Clk, 100);
+                let vol = vm.open_raw_volume(VolumeIdx(0)).expect("open volume");
+                let root = vm.open_root_dir(vol).expect("open root");
+                let file = vm.open_file_in_dir(root, "BIG.BIN", if write { Mode::ReadWriteAppend } else { Mode::ReadOnly }).expect("open file");
+                vm.file_seek_from_start(file, off).expect("seek inside the file");
+                let data: Vec<u8> = (0..len).map(|i| (i as u8) ^ 0xA5 ^ (off as u8)).collect();
+                let r = catch_unwind(AssertUnwindSafe(|| -> Result<(bool, usize, usize), String> {
+                    if write {
+                        let ok = vm.write(file, &data).is_ok();
+                        // how much of it reads back
+                        let off1 = vm.file_offset(file).map_err(|_| "offset".to_string())?;
+                        let len1 = vm.file_length(file).map_err(|_| "length".to_string())?;
+                        let mut back = 0usize;
+                        if vm.file_seek_from_start(file, off).is_ok() {
+                            let mut buf = vec![0u8; len];
+                            let mut got = 0usize;
+                            while got < len {
+                                match vm.read(file, &mut buf[got..]) {
+                                    Ok(0) | Err(_) => break,
+                                    Ok(k) => got += k,
+                                }
+                            }
+                            while back < got && buf[back] == data[back] {
+                                back += 1;
+                            }
+                        }
+                        let _ = vm.file_seek_from_start(file, off1.min(len1));
+                        Ok((ok, back, 0))
+                    } else {
+                        let mut buf = vec![0u8; len];
+                        match vm.read(file, &mut buf) {
+                            Ok(k) => Ok((true, k, 0)),
+                            Err(_) => Ok((false, 0, 0)),
+                        }
+                    }
+                }))
+                .unwrap_or_else(|p| Err(crate::fs::panic_msg(&p)));
+                let off1 = vm.file_offset(file).unwrap_or(0xDEAD_BEEF);
+                let len1 = vm.file_length(file).unwrap_or(0xDEAD_BEEF);
+                let eof = vm.file_eof(file).unwrap_or(false);
+                let closed = catch_unwind(AssertUnwindSafe(|| vm.close_file(file).is_ok())).unwrap_or(false);
+                let disk = vm.find_directory_entry(root, "BIG.BIN").map(|e| e.size).unwrap_or(0xDEAD_BEEF);
+                let (k, ok, cnt, msg) = match r {
+                    Ok((ok, c, _)) => ("ret", ok, c, String::new()),
+                    Err(m) => ("panic", false, 0, m),
+                };
+                let j = json!({"ev": if write { "BigWrite" } else { "BigRead" }, "size": halves(size), "off0": halves(off), "n": len, "r": k, "ok": ok, "cnt": cnt, "msg": msg,
+                    "off1": halves(off1), "len1": halves(len1), "eof": eof, "closed": closed, "disk": halves(disk)});
+                serde_json::to_writer(&mut *out, &j).unwrap();
+                out.write_all(b"\n").unwrap();
+                n += 1;
+            }
+        }
+    }
+    n
 }
